@@ -194,7 +194,7 @@ pub fn run(ctx: &Ctx) -> Report {
             cases2.push(Prog { class: c, method: m, tid: tid0, ops: vec![alpha[6].clone(), Op::Sha1(0), Op::Fp] }.to_case("build"));
         }
     }
-    // (2b) one-attribute messages over the whole encode-side value alphabet of every built-in type
+    // (2b) builders holding 1..=48 attributes of distinct types; one-attribute messages over the whole encode-side value alphabet of every built-in type
     // (decorated and protocol-looking texts, standard reason phrases in several spellings and with the
     // code in front, special-purpose addresses, every list shape ...), unsealed and sealed
     for k in attrs::ALL_KINDS {
@@ -210,6 +210,23 @@ pub fn run(ctx: &Ctx) -> Report {
                 ops.extend(s);
                 cases2.push(Prog { class: 3, method: 1, tid: t, ops }.to_case("build"));
             }
+        }
+    }
+    // (2d) an attribute type of the application's own (its own AttributeWrite implementation), value
+    // lengths 0..=12, alone / between typed attributes / sealed / after into_owned
+    for l in 0..=12u8 {
+        for ops in [vec![Op::Custom(l)], vec![alpha[0].clone(), Op::Custom(l), alpha[6].clone()], vec![Op::Custom(l), Op::Sha1(0), Op::Sha256(0), Op::Fp], vec![Op::Custom(l), Op::IntoOwned, Op::Sha1(1), Op::Fp], vec![Op::Custom(l), Op::Custom((l + 1) % 13), Op::Measure, Op::Clone, Op::Fp]] {
+            cases2.push(Prog { class: (l % 4), method: 1, tid: tid0, ops }.to_case("build"));
+        }
+    }
+    // (2c) builders holding n = 1..=48 attributes of distinct types (the builder keeps its attributes
+    // and their types in small inline tables), unsealed / sealed / sealed after into_owned
+    for n in 1..=48usize {
+        let body: Vec<Op> = (0..n).map(|i| Op::Raw(if i % 2 == 0 { 0xC200 + i as u16 } else { 0x4200 + i as u16 }, vec![i as u8; i % 5])).collect();
+        for s in [vec![], vec![Op::Sha1(0), Op::Sha256(0), Op::Fp], vec![Op::IntoOwned, Op::Sha256(1), Op::Fp], vec![Op::CloneFrom(1), Op::Sha1(1), Op::Fp, Op::Measure]] {
+            let mut ops = body.clone();
+            ops.extend(s);
+            cases2.push(Prog { class: (n % 4) as u8, method: 1, tid: tid0, ops }.to_case("build"));
         }
     }
     // (3) one-attribute messages for every length (all padding residues at all sizes)
